@@ -469,6 +469,52 @@ pub fn build_real_plain(m: &RefArchive) -> Result<BinArchive, String> {
     Ok(a)
 }
 
+/// Same calls as `build_real_plain`, but the one object is serialized between its edits (after
+/// each stage, and before every label that joins an address which already has one): the history
+/// "serialize, edit, serialize again" on a single object. `serialize` takes `&self`, so the final
+/// content - and with it the final image - must be the same as for any other call order.
+pub fn build_real_staged(m: &RefArchive) -> Result<(BinArchive, usize), String> {
+    let mut a = BinArchive::new(endian(m.be));
+    let mut snaps = 0usize;
+    let mut snap = |a: &BinArchive| {
+        let _ = a.serialize();
+        snaps += 1;
+    };
+    a.allocate_at_end(m.size());
+    snap(&a);
+    if m.size() > 0 {
+        a.write_bytes(0, &m.data).map_err(|e| e.to_string())?;
+    }
+    let mut budget = 24usize;
+    for (i, (k, v)) in m.text.iter().enumerate() {
+        if i > 0 && budget > 0 && i % 3 == 1 {
+            budget -= 1;
+            snap(&a);
+        }
+        a.write_string(*k, Some(v)).map_err(|e| e.to_string())?;
+    }
+    snap(&a);
+    for (k, v) in &m.ptrs {
+        a.write_pointer(*k, Some(*v)).map_err(|e| e.to_string())?;
+    }
+    snap(&a);
+    let mut budget = 32usize;
+    for (k, v) in &m.labels {
+        for (i, l) in v.iter().enumerate() {
+            if i > 0 && budget > 0 {
+                budget -= 1;
+                snap(&a);
+            }
+            a.write_label(*k, l).map_err(|e| e.to_string())?;
+        }
+        if budget > 0 && v.len() == 1 && *k % 3 == 0 {
+            budget -= 1;
+            snap(&a);
+        }
+    }
+    Ok((a, snaps))
+}
+
 pub struct GenOpts {
     pub max_cells: usize,
     pub allow_unaligned_len: bool,
